@@ -251,7 +251,7 @@ def _check_atomicity(repo, r2, ci, set_):
                        "__setitem__ (slice): running out of values must end the assignment quietly (an `except StopIteration` before the catch-all, without restore / re-raise)")
     # int path: the value is a byte string before it is written
     F = facts_of(set_)
-    isb = isinstance_of(entry(val), True)
+    isb = isinstance_of(entry(val), True, types=("typing.ByteString", "ByteString", "collections.abc.ByteString", "(bytes, bytearray)", "(bytearray, bytes)", "bytes"))
     int_writes = []
     for c in _calls(set_, "self._write_bytes_to_file"):
         if not any(isinstance(a, ast.Try) for a in ancestors(c)):
